@@ -47,7 +47,7 @@ def gen_generate_cases(ck):
     return out
 
 
-def run_generate(root, sizes, L, nested, threads):
+def run_generate(root, sizes, L, nested, threads, reorder=False):
     contents = sl.gen_content(sizes)
     single = len(sizes) == 1 and not nested and sizes[0] > 0 and (sizes[0] % 2 == 1)
     cp = sl.write_tree(root, contents, nested=nested, single=single)
@@ -61,6 +61,18 @@ def run_generate(root, sizes, L, nested, threads):
     import pathlib
     t._path = pathlib.Path(cp)
     before = threading.active_count()
+    order = list(range(len(sizes)))
+    if reorder and not single and len(sizes) >= 2:
+        # object history: the torrent is hashed once, then the metainfo lists the same files in another order (as reuse() of a
+        # torrent with another file order does), then it is hashed again: the stream is the files in the order NOW listed
+        try:
+            _ = [str(f) for f in t.files], t.size
+            t.generate(threads=threads)
+        except Exception:  # noqa
+            pass
+        order.reverse()
+        info['files'].reverse()
+        contents = [contents[i] for i in order]
     try:
         ret = t.generate(threads=threads)
         out = ('ok', ret, t.metainfo['info'].get('pieces'))
@@ -74,7 +86,7 @@ def run_generate(root, sizes, L, nested, threads):
 def run(ck, model_ok):
     ck.rule = ('(a) reader: random layouts (1..40 files incl. more than the handle cap, runs of 1-byte files, zero-length files, nested dirs, '
                'L in 1..16) read by the real iter_pieces() on intact content, compared with the chunks of the concatenation and with the model; '
-               '(b) Torrent.generate(threads=1..8) on real trees (small L, real 16/32/48 KiB piece lengths, and files of 1..2.5 MiB with piece lengths that are not powers of two) compared with '
+               '(b) Torrent.generate(threads=1..8) on real trees (small L, real 16/32/48 KiB piece lengths, and files of 1..2.5 MiB with piece lengths that are not powers of two; every fifth case: hashed, file order in the metainfo reversed in place, hashed again) compared with '
                'sha1 of consecutive chunks, count = ceil(size/L); non-trivial = distinct (layout, L[, threads]) with >= 2 pieces')
     m = Model()
     pend = []
@@ -111,12 +123,15 @@ def run(ck, model_ok):
         for gi, (sizes, L, nested, threads) in enumerate(gen_generate_cases(ck)):
             d = os.path.join(root, 'g')
             os.makedirs(d)
-            out, exp, leaked = run_generate(d, sizes, L, nested, threads)
+            reorder = gi % 5 == 3
+            out, exp, leaked = run_generate(d, sizes, L, nested, threads, reorder=reorder)
             shutil.rmtree(d)
             npieces = -(-sum(sizes) // L)
             ck.case(('gen', sizes, L, threads), nontrivial=npieces >= 2)
             ck.count('generate:threads=%d' % threads)
-            case = {'kind': 'generate', 'sizes': list(sizes), 'L': L, 'nested': nested, 'threads': threads}
+            case = {'kind': 'generate', 'sizes': list(sizes), 'L': L, 'nested': nested, 'threads': threads, 'reorder': reorder}
+            if reorder:
+                ck.count('generate:rehashed-after-file-order-change')
             if out[0] != 'ok' or out[1] is not True or out[2] != exp or len(out[2]) != 20 * npieces:
                 ck.fail('oracle', 'generate-wrong-pieces', case, f'True + {npieces} digests', repr(out)[:300], 'generate() did not store the SHA-1 of consecutive chunks')
             if leaked > 0:
@@ -132,7 +147,7 @@ def replay(rp):
     sizes, L, nested = tuple(c['sizes']), c['L'], c['nested']
     with Scratch() as root:
         if c['kind'] == 'generate':
-            out, exp, leaked = run_generate(root, sizes, L, nested, c['threads'])
+            out, exp, leaked = run_generate(root, sizes, L, nested, c['threads'], reorder=c.get('reorder', False))
             ok = out[0] == 'ok' and out[1] is True and out[2] == exp and leaked <= 0
             return ok, repr(out)[:300]
         contents = sl.gen_content(sizes)
